@@ -23,7 +23,7 @@ import re
 import sys
 import tempfile
 
-from ctmverif import core, pipeline, translate_res
+from ctmverif import core, msg_sites, pipeline, translate_res
 
 RULE = ('unit: messages of 1-12 words over a generated real directory layout '
         '(awkward names: commas, quotes, brackets, =, :), words = existing / '
@@ -671,7 +671,11 @@ FAILURES = ['success', 'missing_query', 'missing_stats', 'missing_markers',
             'query_is_dir', 'csc_query', 'worker_raise', 'worker_exit',
             # reach the package's multi-line messages that carry a path
             # between newlines (score_utils.read_precomputed_stats)
-            'stats_no_sum', 'stats_no_n_cells']
+            'stats_no_sum', 'stats_no_n_cells',
+            # results stored in the query file (obsm_key): the file already
+            # carries the key (e.g. the same run a second time) -> error with
+            # obsm_clobber False, overwrite with True; and a first write
+            'obsm_exists_noclobber', 'obsm_exists_clobber', 'obsm_fresh']
 
 
 def build_case(rng, wd, failure, awkward=True, use_tmp=None):
@@ -752,6 +756,13 @@ def build_case(rng, wd, failure, awkward=True, use_tmp=None):
         b = stats.read_bytes()
         stats.write_bytes(b[:len(b) // 2] if rng.random() < 0.5
                           else b'junk' * 100)
+    if failure.startswith('obsm_exists'):
+        import anndata
+        import pandas as pd
+        a = anndata.read_h5ad(query)
+        a.obsm['ctm_results'] = pd.DataFrame(
+            {'x': np.arange(a.shape[0], dtype=float)}, index=a.obs.index)
+        a.write_h5ad(query)
     if failure in ('stats_no_sum', 'stats_no_n_cells'):
         with h5py.File(stats, 'a') as f:
             del f['sum' if failure == 'stats_no_sum' else 'n_cells']
@@ -767,6 +778,9 @@ def build_case(rng, wd, failure, awkward=True, use_tmp=None):
         n_processors=rng.choice([1, 2]), chunk_size=rng.choice([3, 10]),
         bootstrap_iteration=rng.choice([1, 5]), cloud_safe=True,
         csv=rng.random() < 0.7)
+    if failure.startswith('obsm_'):
+        cfg['obsm_key'] = 'ctm_results'
+        cfg['obsm_clobber'] = failure == 'obsm_exists_clobber'
     return cfg, {'failure': failure, 'dirs': [str(d_in), str(d_out),
                                               str(d_tmp), str(d_mk)],
                  'encoding': encoding}
@@ -788,10 +802,15 @@ def read_hdf5_blob(path):
     return out
 
 
+SEEN_TEXTS = []     # log lines / error texts of the runs (for msg_sites)
+
+
 def scan_outputs(ctx, cfg, desc, wd, run, roots):
     """returns list of (where, leaked prefix, string)"""
     found = []
     outs = {}
+    if run.get('error') is not None:
+        SEEN_TEXTS.append(str(run['error']))
     if run['json'] is not None:
         outs['json'] = {k: run['json'].get(k) for k in ('config', 'log',
                                                          'metadata')}
@@ -810,6 +829,8 @@ def scan_outputs(ctx, cfg, desc, wd, run, roots):
             csvp).read_text().splitlines() if l.startswith('#')]}
     for where, blob in outs.items():
         for p, s in strings_of(blob):
+            if len(SEEN_TEXTS) < 20000:
+                SEEN_TEXTS.append(s)
             for leak in scan_string(s, roots):
                 found.append((where + p, leak, s))
     return found, outs
@@ -1046,6 +1067,15 @@ def run(ctx):
         check_run(ctx, rng, failure, awkward, combo=combo)
     for failure, awkward, combo, use_tmp in extra:
         check_run(ctx, rng, failure, awkward, combo=combo, use_tmp=use_tmp)
+    # which of the package's path-carrying messages did the runs reach?
+    try:
+        site_list = msg_sites.sites(core.REPO)
+        reached, unreached = msg_sites.classify(site_list, SEEN_TEXTS)
+        ctx.extra_cov['path_message_sites'] = {
+            'total': len(site_list), 'reached': reached,
+            'unreached': unreached}
+    except Exception as e:     # coverage information only
+        ctx.log('msg_sites failed: %r' % e)
     # the scanner is not blind: the same kind of run without cloud_safe
     # must show paths
     _, found = check_run(ctx, rng, 'success', True, cloud_safe=False)
